@@ -36,7 +36,8 @@ OPEN_STATEMENTS = [
     'hopping shortcut: proved for one shared mode, no shared mode and both modes shared (hopping_shortcut_*), for '
     'hopping operators t (i^ j + j^ i) as in the docstrings',
     'dc_commutator_sound (diagonal-Coulomb commutator = generic commutator): the one-body / one-body helper is '
-    'proved for every index pattern (dc_one_body_one_body_sound); open: the one-body / two-body and two-body / '
+    'proved for every index pattern and the whole routine is proved for one-body operators '
+    '(dc_one_body_one_body_sound, dc_commutator_one_body_sound); open: the one-body / two-body and two-body / '
     'two-body helpers, the three-body insertion and the sum over term pairs (Corr + oracle: exhaustive over all '
     'admissible term pairs on 4 modes, random multi-term operators on 5 modes)',
     'trivially_double_commutes_dual_basis soundness holds only outside finding F07 (tdc_dual_sound_partial); '
